@@ -10,6 +10,7 @@ the function from the start (DFS with replay).  Assertions are discharged with
 """
 from __future__ import annotations
 
+import operator as _op
 import time
 import traceback
 from fractions import Fraction
@@ -192,11 +193,17 @@ def Ite(c, a, b):
     if isinstance(c, bool):
         return a if c else b
     a, b = _real(a), _real(b)
+    n = Poly.atom(z3.If(_b(c), a.n.z3(), b.n.z3()))
     if a.d is None and b.d is None:
-        return SymReal(z3.If(_b(c), a.n, b.n))
-    ad = a.d if a.d is not None else z3.RealVal(1)
-    bd = b.d if b.d is not None else z3.RealVal(1)
-    return SymReal(z3.If(_b(c), a.n, b.n), z3.If(_b(c), ad, bd))
+        return SymReal(n)
+    ad = a.d if a.d is not None else _ONE
+    bd = b.d if b.d is not None else _ONE
+    d = Poly.atom(z3.If(_b(c), ad.z3(), bd.z3()))
+    if _CTX is not None:
+        for m in d.t:
+            for aid, _ in m:
+                _CTX.positive.add(aid)
+    return SymReal(n, d)
 
 
 class SymInt:
@@ -278,7 +285,8 @@ class SymInt:
     def __abs__(self):
         return SymInt(z3.If(self.e >= 0, self.e, -self.e))
 
-    def _cmp(self, o, f):
+    def _cmp(self, o, op):
+        f = _OPS[op]
         if isinstance(o, SymInt):
             return SymBool(f(self.e, o.e))
         if isinstance(o, bool):
@@ -286,39 +294,205 @@ class SymInt:
         if isinstance(o, int):
             return SymBool(f(self.e, z3.IntVal(o)))
         if isinstance(o, (float, Fraction, SymReal)):
-            return _real(self)._cmp(o, f)
+            return _real(self)._cmp(o, op)
         return NotImplemented
 
     def __lt__(self, o):
-        return self._cmp(o, lambda a, b: a < b)
+        return self._cmp(o, "<")
 
     def __le__(self, o):
-        return self._cmp(o, lambda a, b: a <= b)
+        return self._cmp(o, "<=")
 
     def __gt__(self, o):
-        return self._cmp(o, lambda a, b: a > b)
+        return self._cmp(o, ">")
 
     def __ge__(self, o):
-        return self._cmp(o, lambda a, b: a >= b)
+        return self._cmp(o, ">=")
 
     def __eq__(self, o):
-        r = self._cmp(o, lambda a, b: a == b)
+        r = self._cmp(o, "==")
         return False if r is NotImplemented else r
 
     def __ne__(self, o):
-        r = self._cmp(o, lambda a, b: a != b)
+        r = self._cmp(o, "!=")
         return True if r is NotImplemented else r
 
     def __repr__(self):
         return f"SymInt({self.e})"
 
 
+# ----------------------------------------------------------------------------
+# polynomials over "atoms" (z3 Real terms: variables or opaque terms such as If / ToReal).
+# SymReal arithmetic happens on these in Python; z3 terms are built only when a comparison
+# has to be decided.  Equal normal forms are equal polynomials, so identities such as
+# p_i * sum(w) == w_i reach z3 already simplified.
+
+_ATOMS = {}  # ast id -> z3 term (kept alive so that ids stay stable)
+
+
+def _atom_id(e):
+    i = e.get_id()
+    if i not in _ATOMS:
+        _ATOMS[i] = e
+    return i
+
+
+class Poly:
+    __slots__ = ("t", "_z")
+
+    def __init__(self, t):
+        self.t = t  # {monomial: Fraction}; monomial = tuple of (atom id, power) sorted; () = constant
+        self._z = None
+
+    @staticmethod
+    def const(c):
+        c = _frac(c)
+        return Poly({(): c} if c != 0 else {})
+
+    @staticmethod
+    def atom(e):
+        e = z3.simplify(e) if not z3.is_const(e) else e
+        if z3.is_rational_value(e):
+            return Poly.const(Fraction(e.numerator_as_long(), e.denominator_as_long()))
+        return Poly({((_atom_id(e), 1),): Fraction(1)})
+
+    def is_const(self):
+        return not self.t or (len(self.t) == 1 and () in self.t)
+
+    def const_value(self):
+        return self.t.get((), Fraction(0))
+
+    def is_zero(self):
+        return not self.t
+
+    def key(self):
+        return frozenset(self.t.items())
+
+    def same(self, o):
+        return self.t == o.t
+
+    def __add__(self, o):
+        if not o.t:
+            return self
+        if not self.t:
+            return o
+        t = dict(self.t)
+        for m, c in o.t.items():
+            v = t.get(m, 0) + c
+            if v == 0:
+                t.pop(m, None)
+            else:
+                t[m] = v
+        return Poly(t)
+
+    def __neg__(self):
+        return Poly({m: -c for m, c in self.t.items()})
+
+    def __sub__(self, o):
+        return self + (-o)
+
+    def scale(self, k):
+        if k == 0:
+            return Poly({})
+        if k == 1:
+            return self
+        return Poly({m: c * k for m, c in self.t.items()})
+
+    def __mul__(self, o):
+        if not self.t or not o.t:
+            return Poly({})
+        if o.is_const():
+            return self.scale(o.const_value())
+        if self.is_const():
+            return o.scale(self.const_value())
+        t = {}
+        for m1, c1 in self.t.items():
+            for m2, c2 in o.t.items():
+                m = _mono_mul(m1, m2)
+                v = t.get(m, 0) + c1 * c2
+                if v == 0:
+                    t.pop(m, None)
+                else:
+                    t[m] = v
+        return Poly(t)
+
+    def z3(self):
+        if self._z is None:
+            terms = []
+            for m, c in sorted(self.t.items()):
+                fs = []
+                for aid, pw in m:
+                    fs.extend([_ATOMS[aid]] * pw)
+                if not fs:
+                    terms.append(realval(c))
+                else:
+                    prod = fs[0]
+                    for f in fs[1:]:
+                        prod = prod * f
+                    terms.append(prod if c == 1 else realval(c) * prod)
+            if not terms:
+                self._z = z3.RealVal(0)
+            elif len(terms) == 1:
+                self._z = terms[0]
+            else:
+                self._z = z3.Sum(terms)
+        return self._z
+
+    def sign(self, positive):
+        """syntactic sign given the set of atom ids known to be > 0: '+', '-', '0' or None"""
+        if not self.t:
+            return "0"
+        pos = neg = False
+        for m, c in self.t.items():
+            for aid, pw in m:
+                if aid not in positive and pw % 2 == 1:
+                    return None
+            if c > 0:
+                pos = True
+            else:
+                neg = True
+        if pos and not neg:
+            return "+"
+        if neg and not pos:
+            return "-"
+        return None
+
+    def __repr__(self):
+        return str(z3.simplify(self.z3()))
+
+
+def _mono_mul(m1, m2):
+    if not m1:
+        return m2
+    if not m2:
+        return m1
+    d = dict(m1)
+    for a, pw in m2:
+        d[a] = d.get(a, 0) + pw
+    return tuple(sorted(d.items()))
+
+
+_ONE = Poly.const(1)
+
+
+def _positive_atoms():
+    return _CTX.positive if _CTX is not None else ()
+
+
 class SymReal:
-    """A real number num/den; den is None (=1) or a z3 term known to be > 0 on this path."""
+    """A real number num/den (polynomials over z3 atoms); den is None (=1) or known > 0."""
 
     __slots__ = ("n", "d")
 
     def __init__(self, n, d=None):
+        if not isinstance(n, Poly):
+            n = Poly.atom(n)
+        if d is not None and not isinstance(d, Poly):
+            d = Poly.atom(d)
+        if d is not None and d.is_const():
+            k = d.const_value()
+            n = n.scale(1 / k)
+            d = None
         self.n = n
         self.d = d
 
@@ -332,13 +506,19 @@ class SymReal:
         return id(self)
 
     def __bool__(self):
-        return ctx().branch(self.n != 0)
+        r = self != 0
+        return r if isinstance(r, bool) else bool(r)
 
     def __float__(self):
-        v = z3.simplify(self.n)
-        if self.d is None and z3.is_rational_value(v):
-            return float(Fraction(v.numerator_as_long(), v.denominator_as_long()))
+        if self.d is None and self.n.is_const():
+            return float(self.n.const_value())
         raise Unsupported("float() of a symbolic real (missing loader rewrite?)")
+
+    def term(self):
+        """z3 term of the value (uses z3 division when there is a denominator)"""
+        if self.d is None:
+            return self.n.z3()
+        return self.n.z3() / self.d.z3()
 
     # arithmetic -----------------------------------------------------------
     def __add__(self, o):
@@ -347,7 +527,7 @@ class SymReal:
             return o
         if self.d is None and o.d is None:
             return SymReal(self.n + o.n)
-        if self.d is not None and o.d is not None and self.d.eq(o.d):
+        if self.d is not None and o.d is not None and self.d.same(o.d):
             return SymReal(self.n + o.n, self.d)
         if self.d is None:
             return SymReal(self.n * o.d + o.n, o.d)
@@ -387,7 +567,13 @@ class SymReal:
             d = self.d
         else:
             d = self.d * o.d
-        return SymReal(self.n * o.n, d)
+        n = self.n * o.n
+        # cancel a common factor equal to the whole denominator (p/q * q)
+        if d is not None and self.d is not None and o.d is None and self.d.same(o.n):
+            return SymReal(self.n)
+        if d is not None and o.d is not None and self.d is None and o.d.same(self.n):
+            return SymReal(o.n)
+        return SymReal(n, d)
 
     __rmul__ = __mul__
 
@@ -405,62 +591,83 @@ class SymReal:
 
     def __pow__(self, k):
         if isinstance(k, int) and 0 <= k <= 6:
-            r = SymReal(z3.RealVal(1))
+            r = SymReal(_ONE)
             for _ in range(k):
                 r = r * self
             return r
         raise Unsupported("power of a symbolic real")
 
     def __abs__(self):
-        return SymReal(z3.If(self.n >= 0, self.n, -self.n), self.d)
+        sg = self.n.sign(_positive_atoms())
+        if sg in ("+", "0"):
+            return self
+        if sg == "-":
+            return -self
+        e = self.n.z3()
+        return SymReal(Poly.atom(z3.If(e >= 0, e, -e)), self.d)
 
     # comparisons ----------------------------------------------------------
-    def _cmp(self, o, f):
+    def _diff(self, o):
+        """polynomial with the sign of self - o (denominators are positive)"""
+        if self.d is None and o.d is None:
+            return self.n - o.n
+        if self.d is not None and o.d is not None and self.d.same(o.d):
+            return self.n - o.n
+        a = self.n if o.d is None else self.n * o.d
+        b = o.n if self.d is None else o.n * self.d
+        return a - b
+
+    def _cmp(self, o, op):
         o = _real_or_ni(o)
         if o is NotImplemented:
             return o
-        if self.d is None and o.d is None:
-            return SymBool(f(self.n, o.n))
-        if self.d is not None and o.d is not None and self.d.eq(o.d):
-            return SymBool(f(self.n, o.n))
-        a = self.n if o.d is None else self.n * o.d
-        b = o.n if self.d is None else o.n * self.d
-        return SymBool(f(a, b))
+        p = self._diff(o)
+        if p.is_const():
+            v = p.const_value()
+            return _OPS[op](v, 0)
+        sg = p.sign(_positive_atoms())
+        if sg is not None:
+            v = {"+": 1, "-": -1, "0": 0}[sg]
+            return _OPS[op](v, 0)
+        return SymBool(_OPS[op](p.z3(), 0))
 
     def __lt__(self, o):
-        return self._cmp(o, lambda a, b: a < b)
+        return self._cmp(o, "<")
 
     def __le__(self, o):
-        return self._cmp(o, lambda a, b: a <= b)
+        return self._cmp(o, "<=")
 
     def __gt__(self, o):
-        return self._cmp(o, lambda a, b: a > b)
+        return self._cmp(o, ">")
 
     def __ge__(self, o):
-        return self._cmp(o, lambda a, b: a >= b)
+        return self._cmp(o, ">=")
 
     def __eq__(self, o):
-        r = self._cmp(o, lambda a, b: a == b)
+        r = self._cmp(o, "==")
         return False if r is NotImplemented else r
 
     def __ne__(self, o):
-        r = self._cmp(o, lambda a, b: a != b)
+        r = self._cmp(o, "!=")
         return True if r is NotImplemented else r
 
     def __repr__(self):
         if self.d is None:
-            return f"SymReal({z3.simplify(self.n)})"
-        return f"SymReal(({z3.simplify(self.n)})/({z3.simplify(self.d)}))"
+            return f"SymReal({self.n!r})"
+        return f"SymReal(({self.n!r})/({self.d!r}))"
+
+
+_OPS = {"<": _op.lt, "<=": _op.le, ">": _op.gt, ">=": _op.ge, "==": _op.eq, "!=": _op.ne}
 
 
 def _real(x):
     if isinstance(x, SymReal):
         return x
     if isinstance(x, SymInt):
-        return SymReal(z3.ToReal(x.e))
+        return SymReal(Poly.atom(z3.ToReal(x.e)))
     if isinstance(x, SymBool):
-        return SymReal(z3.If(x.e, z3.RealVal(1), z3.RealVal(0)))
-    return SymReal(realval(x))
+        return SymReal(Poly.atom(z3.If(x.e, z3.RealVal(1), z3.RealVal(0))))
+    return SymReal(Poly.const(x))
 
 
 def _real_or_ni(x):
@@ -469,27 +676,41 @@ def _real_or_ni(x):
     return NotImplemented
 
 
+def _sign_of(p):
+    """sign of polynomial p on this path: +1 / -1 / 0, forking if it is not determined"""
+    if p.is_const():
+        v = p.const_value()
+        return (v > 0) - (v < 0)
+    c = ctx()
+    sg = p.sign(c.positive)
+    if sg is not None:
+        return {"+": 1, "-": -1, "0": 0}[sg]
+    k = p.key()
+    if k in c.sign_cache:
+        return c.sign_cache[k]
+    e = p.z3()
+    if c.branch(e == 0):
+        r = 0
+    elif c.branch(e > 0):
+        r = 1
+    else:
+        r = -1
+    c.sign_cache[k] = r
+    return r
+
+
 def _divide(a, b):
     """a / b with Python float semantics for zero: ZeroDivisionError."""
-    c = ctx()
-    bn = z3.simplify(b.n)
-    if z3.is_rational_value(bn):
-        if bn.numerator_as_long() == 0:
-            raise ZeroDivisionError("float division by zero")
-        positive = bn.numerator_as_long() > 0
-    else:
-        if c.branch(b.n == 0):
-            raise ZeroDivisionError("float division by zero")
-        positive = c.branch(b.n > 0)
+    sg = _sign_of(b.n)
+    if sg == 0:
+        raise ZeroDivisionError("float division by zero")
     # a/b = (a.n * b.d) / (a.d * b.n); keep the denominator positive
     num = a.n if b.d is None else a.n * b.d
     den = b.n if a.d is None else a.d * b.n
-    if not positive:
+    if sg < 0:
         num, den = -num, -den
-    den_s = z3.simplify(den)
-    if z3.is_rational_value(den_s):
-        q = Fraction(den_s.numerator_as_long(), den_s.denominator_as_long())
-        return SymReal(num * realval(1 / q))
+    if den.same(num):
+        return SymReal(_ONE)
     return SymReal(num, den)
 
 
@@ -498,7 +719,10 @@ def to_int_trunc(x):
     x = _real(x)
     if x.d is not None:
         raise Unsupported("int() of a symbolic quotient")
-    return SymInt(z3.If(x.n >= 0, z3.ToInt(x.n), -z3.ToInt(-x.n)))
+    if x.n.is_const():
+        return int(x.n.const_value())
+    e = x.n.z3()
+    return SymInt(z3.If(e >= 0, z3.ToInt(e), -z3.ToInt(-e)))
 
 
 def is_sym(x):
@@ -508,9 +732,8 @@ def is_sym(x):
 def concrete_value(x):
     """Python value of a proxy whose term is a constant, else None."""
     if isinstance(x, SymReal):
-        n = z3.simplify(x.n)
-        if x.d is None and z3.is_rational_value(n):
-            return Fraction(n.numerator_as_long(), n.denominator_as_long())
+        if x.d is None and x.n.is_const():
+            return x.n.const_value()
         return None
     if isinstance(x, SymInt):
         n = z3.simplify(x.e)
@@ -585,6 +808,10 @@ class Context:
         self.symbolic_decisions = 0
         self.data = {}  # scratch space for harness observers
         self.pc_decisions = []  # the branch conditions taken (without bounds / assumptions)
+        self.tentative = False
+        self.tentative_ids = []
+        self.positive = set()  # atom ids known > 0 on this path (declared lower bound > 0)
+        self.sign_cache = {}
 
     # -- solver plumbing
     def _check(self, *extra):
@@ -634,6 +861,8 @@ class Context:
         self.vars.append((str(v), v))
         if lo is not None:
             self.add(v > realval(lo) if lo_strict else v >= realval(lo))
+            if _frac(lo) > 0 or (lo_strict and _frac(lo) >= 0):
+                self.positive.add(_atom_id(v))
         if hi is not None:
             self.add(v < realval(hi) if hi_strict else v <= realval(hi))
         return SymReal(v)
@@ -662,6 +891,7 @@ class Context:
         if self.pos < len(self.decisions):
             d = self.decisions[self.pos]
             self.pos += 1
+            self._mark()
             if d[0] != "b":
                 raise Unsupported("non-deterministic replay (decision kind)")
             taken = d[2]
@@ -692,6 +922,7 @@ class Context:
         other_open = r != z3.unsat
         self.decisions.append(["b", other_open, side])
         self.pos += 1
+        self._mark()
         self.solver.add(e if side else z3.Not(e))
         self.pc_decisions.append(e if side else z3.Not(e))
         self.symbolic_decisions += 1
@@ -703,6 +934,7 @@ class Context:
         if self.pos < len(self.decisions):
             d = self.decisions[self.pos]
             self.pos += 1
+            self._mark()
             if d[0] != "c":
                 raise Unsupported("non-deterministic replay (decision kind)")
             i = d[2][d[3]]
@@ -741,6 +973,7 @@ class Context:
             raise Infeasible()
         self.decisions.append(["c", len(feas) > 1, feas, 0])
         self.pos += 1
+        self._mark()
         i = feas[0]
         if conds[i] is not True:
             self.add(_b(conds[i]))
@@ -755,6 +988,7 @@ class Context:
         if self.pos < len(self.decisions):
             d = self.decisions[self.pos]
             self.pos += 1
+            self._mark()
             if d[0] != "v":
                 raise Unsupported("non-deterministic replay (decision kind)")
             v = d[2][d[3]]
@@ -780,10 +1014,38 @@ class Context:
         vals.sort()
         self.decisions.append(["v", len(vals) > 1, vals, 0])
         self.pos += 1
+        self._mark()
         self.add(e == vals[0])
         self.pc_decisions.append(e == vals[0])
         self.symbolic_decisions += 1
         return vals[0]
+
+    # -- tentative decisions: decisions whose outcome is discarded by the code under analysis
+    def _mark(self):
+        if self.tentative:
+            self.tentative_ids.append(self.pos - 1)
+
+    def begin_tentative(self):
+        self.tentative = True
+
+    def end_tentative(self):
+        self.tentative = False
+
+    def discard_tentative(self):
+        """The computation that consumed the tentative decisions was thrown away: keep the
+        value taken on this path as the single representative (no alternatives explored)."""
+        n = 0
+        for idx in self.tentative_ids:
+            d = self.decisions[idx]
+            if d[1]:
+                n += 1
+            d[1] = False
+            if d[0] in ("c", "v"):
+                d[2] = [d[2][d[3]]]
+                d[3] = 0
+        self.tentative_ids = []
+        self.tentative = False
+        return n
 
     # -- assumptions and obligations
     def assume(self, c):
@@ -859,10 +1121,10 @@ class Context:
                 else:
                     subs.append((v, z3.BoolVal(bool(val))))
         if isinstance(x, SymReal):
-            n = z3.simplify(z3.substitute(x.n, *subs))
+            n = z3.simplify(z3.substitute(x.n.z3(), *subs))
             nf = _z3_to_py(n)
             if x.d is not None:
-                d = _z3_to_py(z3.simplify(z3.substitute(x.d, *subs)))
+                d = _z3_to_py(z3.simplify(z3.substitute(x.d.z3(), *subs)))
                 return Fraction(nf) / Fraction(d)
             return nf
         e = x.e
